@@ -1,6 +1,7 @@
 package store
 
 import (
+	"encoding/binary"
 	"fmt"
 	"github.com/LemoFoundationLtd/lemochain-core/common"
 	"github.com/LemoFoundationLtd/lemochain-core/common/log"
@@ -159,11 +160,34 @@ func (queue *FileQueue) checkFile() error {
 		offset, err := queue.scanFile(queue.path(), queue.Offset)
 		if err == nil || err == ErrEOF {
 			queue.Offset = offset
-			return nil
+			// cut off what is behind the last intact record. New records are written from there, and the rest of a torn write must never be read as records later
+			return queue.truncateFile(queue.path(), offset)
 		} else {
 			return err
 		}
 	}
+}
+
+func (queue *FileQueue) truncateFile(filePath string, size int64) error {
+	fileInfo, err := os.Stat(filePath)
+	if err != nil {
+		return err
+	}
+	if fileInfo.Size() <= size {
+		return nil
+	}
+
+	log.Warnf("the last write of %s was not complete. drop %d bytes", filePath, fileInfo.Size()-size)
+	file, err := os.OpenFile(filePath, os.O_WRONLY, os.ModePerm)
+	if err != nil {
+		return err
+	}
+	defer file.Close()
+	err = file.Truncate(size)
+	if err != nil {
+		return err
+	}
+	return file.Sync()
 }
 
 func (queue *FileQueue) emptyFile(path string) {
@@ -182,6 +206,63 @@ func (queue *FileQueue) emptyFile(path string) {
 	}
 }
 
+// batchHeadFlag marks the record in front of the items of a batch. Its value is the count of the items
+var batchHeadFlag = uint32(0xffffff01)
+
+type logRecord struct {
+	flg    uint32
+	key    []byte
+	val    []byte
+	offset int64
+}
+
+func (queue *FileQueue) encodeBatchHead(count int) ([]byte, error) {
+	return FileUtilsEncode(batchHeadFlag, []byte("batch"), leveldb.EncodeNumber(uint32(count)))
+}
+
+// readLog reads the intact records from offset. It stops at the end of file or at the first broken record.
+// The items of a batch are only taken if all of them are intact, a batch is written completely or not at all.
+// It returns the records and the offset behind the last one
+func (queue *FileQueue) readLog(file *os.File, offset int64) ([]*logRecord, int64, error) {
+	records := make([]*logRecord, 0)
+	for {
+		head, body, err := FileUtilsRead(file, offset)
+		if err == io.EOF || err == ErrRecordBroken {
+			return records, offset, nil
+		}
+		if err != nil {
+			return nil, -1, err
+		}
+
+		next := offset + int64(FileUtilsAlign(uint32(RecordHeadLength)+uint32(head.Len)))
+		if head.Flg != batchHeadFlag {
+			records = append(records, &logRecord{flg: head.Flg, key: body.Key, val: body.Val, offset: offset})
+			offset = next
+			continue
+		}
+
+		if len(body.Val) != 4 {
+			return records, offset, nil
+		}
+		count := int(binary.BigEndian.Uint32(body.Val))
+		items := make([]*logRecord, 0, count)
+		for index := 0; index < count; index++ {
+			head, body, err = FileUtilsRead(file, next)
+			if err == io.EOF || err == ErrRecordBroken || (err == nil && head.Flg == batchHeadFlag) {
+				// the batch is not complete. It was never committed
+				return records, offset, nil
+			}
+			if err != nil {
+				return nil, -1, err
+			}
+			items = append(items, &logRecord{flg: head.Flg, key: body.Key, val: body.Val, offset: next})
+			next += int64(FileUtilsAlign(uint32(RecordHeadLength) + uint32(head.Len)))
+		}
+		records = append(records, items...)
+		offset = next
+	}
+}
+
 func (queue *FileQueue) scanFile(filePath string, offset int64) (int64, error) {
 	file, err := os.OpenFile(filePath, os.O_RDONLY, os.ModePerm)
 	defer file.Close()
@@ -189,28 +270,19 @@ func (queue *FileQueue) scanFile(filePath string, offset int64) (int64, error) {
 	if err != nil {
 		return -1, err
 	}
-	fileInfo, err := os.Stat(filePath)
+
+	records, end, err := queue.readLog(file, offset)
 	if err != nil {
 		return -1, err
 	}
 
-	fileSize := fileInfo.Size()
-	queue.Offset = offset
-	for {
-		head, body, err := FileUtilsRead(file, queue.Offset)
-		if err == io.EOF {
-			return queue.Offset, ErrEOF
-		}
-
-		if err != nil {
-			return -1, err
-		}
-
-		length := FileUtilsAlign(uint32(RecordHeadLength) + uint32(head.Len))
-		queue.deliver(head.Flg, body.Key, body.Val)
-		queue.Offset += int64(length)
-		log.Debugf("load file progress: %d/%d", queue.Offset, fileSize)
+	for _, record := range records {
+		queue.Offset = record.offset
+		queue.deliver(record.flg, record.key, record.val)
 	}
+	queue.Offset = end
+	log.Debugf("load file %s: %d records, %d bytes", filePath, len(records), end)
+	return queue.Offset, ErrEOF
 }
 
 func (queue *FileQueue) encodeBatchItems(items []*BatchItem) ([][]byte, error) {
@@ -294,14 +366,21 @@ func (queue *FileQueue) PutBatch(items []*BatchItem) error {
 		return err
 	}
 
+	// the items follow a head record which tells their count, so that a torn write of the batch is found when the file is scanned
+	headBuf, err := queue.encodeBatchHead(len(items))
+	if err != nil {
+		return err
+	}
+
 	path := queue.path()
-	totalBuf := queue.mergeBatchItems(tmpBuf)
+	totalBuf := queue.mergeBatchItems(append([][]byte{headBuf}, tmpBuf...))
 	queue.emptyFile(path)
 	_, err = FileUtilsFlush(path, queue.Offset, totalBuf)
 	if err != nil {
 		return err
 	}
 
+	queue.Offset += int64(len(headBuf))
 	queue.deliverBatch(tmpBuf, items)
 	return nil
 }
